@@ -189,6 +189,20 @@ def scenario_for(seed, index, tier):
         sc['linger_us'] = rng.choice([300000, 1500000, 3000000])
         sc['family'] = 'handover-stress'
         return sc
+    if rng.random() < 0.08:
+        # a disconnect() and a connect() issued at the same moment by two
+        # threads against a session that is up: whichever order they take
+        # effect in, an accepted connect() is not torn down by that
+        # disconnect()
+        ops0 = ['connect', 'wait_play'] + \
+            (['write'] * rng.choice([0, 0, 2])) + \
+            ['sync', rng.choice(['disc', 'disc', 'disc_imm'])]
+        ops1 = ['sync'] + (['nap'] if rng.random() < 0.2 else []) + \
+            ['connect', 'wait_play']
+        sc = make(proto, [proto], [ops0, ops1], ['long'] * 8, [], 0, 0, rng)
+        sc['net']['send_error'] = False
+        sc['family'] = 'disc-vs-connect'
+        return sc
     allowed = [proto]
     if rng.random() < 0.15:
         other = rng.choice([p for p in sup if p != proto])
@@ -553,6 +567,13 @@ def execute(scenario, tape):
                         w.sleep(700000)
                     elif op == 'nap':
                         w.sleep(100000)
+                    elif op == 'sync':
+                        # rendezvous of all threads that have one: what
+                        # follows in them starts at the same moment
+                        st['rv'] = st.get('rv', 0) + 1
+                        want = sum(1 for t in scenario['threads']
+                                   if 'sync' in t)
+                        w.wait_until(lambda: st['rv'] >= want, budget=True)
                 st['done_threads'] += 1
             return run
 
@@ -933,6 +954,14 @@ def check(scenario, w, st, res):
                                      for e in st['errs'])
                         who = 'old-thread-exception-path' if failed \
                             else 'old-thread-reaction'
+                        if len(scenario['allowed']) > 1 and any(
+                                e[3] == tid and e[1] == 'InvalidState'
+                                for e in st['errs']):
+                            # the old thread was in the version negotiation:
+                            # its status connection ended, this connect()
+                            # was accepted, and the old thread's own
+                            # internal connect() was refused in turn
+                            who = 'old-thread-internal-negotiation'
                     break
             bad.update(behs=behs, errs=st['errs'][-2:],
                        handshakes=[a.handshake for a in new])
@@ -997,6 +1026,37 @@ def check(scenario, w, st, res):
                        'server_errors': app.errors[:2],
                        'client_errors': st['errs'][-2:]}))
             break
+    # ---- O9: disconnect() || connect() on a session that is up.  An
+    # accepted connect() means the disconnect() took effect first, so the
+    # new session is not that disconnect()'s to tear down
+    if scenario.get('family') == 'disc-vs-connect':
+        t0 = [r for r in recs if r.by == 0]
+        t1 = [r for r in recs if r.by == 1]
+        c0 = next((r for r in t0 if r.op == 'connect'), None)
+        wp0 = next((r for r in t0 if r.op == 'wait_play'), None)
+        d = next((r for r in t0 if r.op in ('disc', 'disc_imm')), None)
+        c1 = next((r for r in t1 if r.op == 'connect'), None)
+        wp1 = next((r for r in t1 if r.op == 'wait_play'), None)
+        if None not in (c0, wp0, d, c1, wp1) and c0.r is not None and \
+                c0.r.ok and wp0.extra and wp0.extra['res'] == 'play' and \
+                d.r is not None and d.r.ok and c1.r is not None and \
+                wp1.extra:
+            ob()
+            res.probes['disconnect-vs-connect-judged'] = 1
+            if c1.r.ok:
+                res.probes['connect-won-against-disconnect'] = 1
+                apps = [a for a in w.server.apps
+                        if a.conn.index >= wp1.extra['base']]
+                if wp1.extra['res'] != 'play' and \
+                        not any(a.reached_play for a in apps):
+                    V.append(('C16/accepted-connect-torn-down-by-concurrent-'
+                              'disconnect',
+                              {'op': c1.op, 'wait': wp1.extra['res'],
+                               'disc': d.op,
+                               'tcp_connections': len(w.net.conns)}))
+            elif type(c1.r.exc).__name__ != 'InvalidState':
+                V.append(('C16/connect-raised:%s'
+                          % type(c1.r.exc).__name__, str(c1.r.exc)[:100]))
     # ---- O2: disconnect leads to termination
     ob()
     if not st.get('final_quiet'):
